@@ -117,6 +117,9 @@ type escaper struct {
 	// start[templateName] is the context in which the analysis recorded in
 	// output[templateName] started: the context of the first call site.
 	start map[string]context
+	// active[templateName] counts the analyses of the named template (under any of its
+	// context-specific names) that are going on.
+	active map[string]int
 	// parent is the escaper on whose behalf this one analyses a list a second time
 	// (escapeListForReentry, escapeListConditionally), or nil. Its derived templates and
 	// pending edits are visible to this escaper.
@@ -134,6 +137,7 @@ func makeEscaper(n *nameSpace) escaper {
 		map[*parse.TemplateNode]string{},
 		map[*parse.TextNode][]byte{},
 		map[string]context{},
+		map[string]int{},
 		nil,
 	}
 }
@@ -888,9 +892,11 @@ func mangle(c context, templateName string) string {
 }
 
 // maxOpenPrefix bounds the static text that becomes part of the name of a copy (see
-// openPrefix): a recursive template that lengthens such a text at every level is refused
-// at this length instead of being copied without end.
+// openPrefix).
 const maxOpenPrefix = 256
+
+// maxOpenDepth bounds the levels of recursion through which such a text may grow.
+const maxOpenDepth = 4
 
 // openPrefix returns, for the classes of valuePrefixClass within which the text itself still
 // decides what an action is checked against, that text: an unsafe URL prefix may be completed
@@ -1012,10 +1018,10 @@ func (e *escaper) escapeTree(c context, node parse.Node, name string, line int) 
 	// Mangle the template name with the input context to produce a reliable
 	// identifier.
 	dname := mangle(c, name)
-	if len(openPrefix(c, valuePrefixKind(c))) > maxOpenPrefix {
+	if open := openPrefix(c, valuePrefixKind(c)); len(open) > maxOpenPrefix || open != "" && e.depth(name) >= maxOpenDepth {
 		return context{
 			state: stateError,
-			err:   errorf(ErrBadHTML, node, line, "{{template %q}} follows %d bytes of an attribute value that is still incomplete", name, len(c.attr.value)),
+			err:   errorf(ErrBadHTML, node, line, "{{template %q}} follows an attribute value that is still incomplete after %d bytes and %d levels of recursion", name, len(c.attr.value), e.depth(name)),
 		}, dname
 	}
 	if dname != name && !e.isCopy(dname) && e.template(dname) != nil {
@@ -1083,7 +1089,19 @@ func (e *escaper) escapeTree(c context, node parse.Node, name string, line int) 
 		t = dt
 	}
 	e.start[dname] = c
-	return rebase(e.computeOutCtx(c, t), c, caller), dname
+	e.active[name]++
+	out := e.computeOutCtx(c, t)
+	e.active[name]--
+	return rebase(out, c, caller), dname
+}
+
+// depth returns how many analyses of the named template are going on.
+func (e *escaper) depth(name string) int {
+	n := 0
+	for p := e; p != nil; p = p.parent {
+		n += p.active[name]
+	}
+	return n
 }
 
 // rebase adapts the output context out, computed for a template called in context c0,
@@ -1514,6 +1532,7 @@ func (e *escaper) rollback(knownOutput, knownDerived map[string]bool) {
 	e.actionNodeEdits = make(map[*parse.ActionNode][]string)
 	e.templateNodeEdits = make(map[*parse.TemplateNode]string)
 	e.textNodeEdits = make(map[*parse.TextNode][]byte)
+	e.active = make(map[string]int)
 }
 
 // template returns the named template given a mangled template name.
